@@ -59,10 +59,12 @@ PLAN = {
         'design_ref': 'DESIGN.md 4.6',
     },
     'C10': {
+        'level': 'other',
+        'explanation': 'mixed: (1) per-call PROOF (Verus, all items and histories, over their models) for the emitting methods of BehaviorSubject / ReplaySubject extracted from /repo (stored value / history updated before the inner Subject multicasts; a terminated subject ignores further events) and for BehaviorSubject\'s hand-over block; (2) frame obligations on the token tree (per-subscription state in observable()); (3) the plain Subject itself - which every other subject forwards to - is checked only by BOUNDED Kani harnesses on the real type (concrete call sequences, <= 2 observers at once, symbolic items, both map orders, re-entrant unsubscribe) and by native runs of the hand-over sequences.  The obligations/discharged counts cover (1) and (2); the Subject part is listed under bounded_stand_ins.  No induction over subject call histories was built, hence level other and not proof.',
         'engines': ['kani', 'syntactic', 'verus_units'],
         'technique': 'Kani contracts on the real Subject (next/error/complete/subscribe/unsubscribe vs SubjectModel) + Verus contracts on the extracted BehaviorSubject/ReplaySubject emitting methods and BehaviorSubject hand-over + per-subscription frame obligation on observable()',
         'level_text': 'each Subject operation, on the real type, from pre-states with 1 observer (quick) or 2 observers (thorough), symbolic items, both map iteration orders: delivered to exactly the registered observers once, nothing held after a terminal/unsubscribe; re-entrant unsubscribe; hand-over of the other subject types on concrete call sequences',
-        'level_note': 'bounded in observers (<=2) and history (<=3 items); sequential; no Verus induction over call histories was built for subjects',
+        'level_note': 'the plain Subject is bounded in observers (<=2 at once) and in the length of the concrete call sequences; sequential; no Verus induction over call histories was built for subjects; a plain Subject accepting subscribers after its terminal is an open known finding',
         'design_ref': 'DESIGN.md 4.10',
     },
     'C13': {
